@@ -57,7 +57,7 @@ type globalInfo struct {
 
 func NewEngine(repo string, patterns []string) (*Engine, error) {
 	eng := &Engine{repo: repo, spkgs: map[string]*ssa.Package{}, funcIDs: map[*ssa.Function]int{}, closures: map[*Term]*closureInfo{},
-		closureAddrs: map[closureKey]*Addr{}, measures: map[*loopInfo]*Term{}, inlineExternal: map[string]bool{},
+		closureAddrs: map[closureKey]*Addr{}, measures: map[*loopInfo]*Term{}, inlineExternal: map[string]bool{"encoding/binary": true}, // byte-order helpers: the standard library source itself is executed symbolically
 		implCache: map[string][]*ssa.Function{}, ctrCache: map[*ssa.Function]*Contract{}, globals: map[*ssa.Global]*globalInfo{},
 		initDone: map[*ssa.Package]bool{}, typeNames: map[string]types.Type{}, constBig: map[*Term]*big.Int{}, constBigInit: map[*Term]string{}}
 	cfg := &packages.Config{Mode: packages.LoadAllSyntax, Dir: repo, BuildFlags: []string{"-tags=verif", "-mod=mod"},
